@@ -246,6 +246,7 @@ pub fn table_get(entries: &[(Vec<u8>, u64, u8, Vec<u8>)], block_size: usize, use
 use crate::WriteOptions;
 use super::DB;
 
+#[derive(Clone)]
 pub enum DbOp {
     Put(Vec<u8>, Vec<u8>),
     Delete(Vec<u8>),
@@ -280,6 +281,10 @@ pub enum DbOp {
     /// (C15, oracle scan_damage only) close, XOR the byte at len * num / den of the newest table
     /// file with `mask`, reopen
     DamageTable(usize, usize, u8),
+    /// (C15, oracle manifest_type only) close, change the TYPE code of the k-th fragment from the end
+    /// of the current manifest from Full to First (the fragment's checksum and payload stay as
+    /// they are), reopen
+    ManifestFragmentType(usize),
     /// n point lookups of one key (seek charging: the first file consulted is charged when two are)
     GetMany(Vec<u8>, usize),
     /// let background work finish
@@ -317,6 +322,7 @@ pub fn run_history(ops: &[DbOp], keys: &[Vec<u8>]) -> Vec<String> {
             DbOp::ReleaseSnapshot => {}
             DbOp::DamageManifest(_, _) => {}
             DbOp::DamageTable(_, _, _) => {}
+            DbOp::ManifestFragmentType(_) => {}
             DbOp::GetMany(k, n) => { for _ in 0..*n { let _ = db.as_ref().unwrap().get(ReadOptions::default(), k); } }
             DbOp::Sleep(ms) => std::thread::sleep(std::time::Duration::from_millis(*ms)),
             DbOp::DirCheck => {}
@@ -427,6 +433,7 @@ pub fn run_views(ops: &[DbOp], keys: &[Vec<u8>], moves: &str) -> Vec<View> {
                 db = Some(DB::open(options.clone()).unwrap());
             }
             DbOp::DamageTable(_, _, _) => {}
+            DbOp::ManifestFragmentType(_) => {}
             DbOp::GetMany(k, n) => { for _ in 0..*n { let _ = db.as_ref().unwrap().get(ReadOptions::default(), k); } }
             DbOp::Sleep(ms) => std::thread::sleep(std::time::Duration::from_millis(*ms)),
             DbOp::DirCheck => {
@@ -899,6 +906,42 @@ pub fn run_damage(ops: &[DbOp], keys: &[Vec<u8>]) -> DamageOutcome {
                         bytes[pos] ^= *mask;
                         let mut f = fs.create_file(t, false).unwrap();
                         f.write_all(&bytes).unwrap();
+                    }
+                }
+                options.create_if_missing = false;
+                match DB::open(options.clone()) {
+                    Ok(d) => db = Some(d),
+                    Err(e) => { out.open_error = Some(format!("{}", e)); return out; }
+                }
+            }
+            DbOp::ManifestFragmentType(k) => {
+                drop(db.take());
+                let fs = options.filesystem_provider();
+                let root = std::path::PathBuf::from(options.db_path());
+                let mut manifests: Vec<std::path::PathBuf> = fs.list_dir(&root).unwrap_or_default().into_iter()
+                    .filter(|p| p.file_name().map_or(false, |n| n.to_string_lossy().starts_with("MANIFEST"))).collect();
+                manifests.sort();
+                if let Some(m) = manifests.last() {
+                    let mut bytes = vec![];
+                    fs.open_file(m).unwrap().read_to_end(&mut bytes).unwrap();
+                    // walk the fragments: 7-byte header (checksum 4, length 2, type 1), blocks of 32 KiB
+                    let mut frags: Vec<usize> = vec![];
+                    let mut pos = 0usize;
+                    while pos + 7 <= bytes.len() {
+                        let left = 32768 - pos % 32768;
+                        if left < 7 { pos += left; continue; }
+                        let len = bytes[pos + 4] as usize | (bytes[pos + 5] as usize) << 8;
+                        if pos + 7 + len > bytes.len() { break; }
+                        frags.push(pos);
+                        pos += 7 + len;
+                    }
+                    if *k < frags.len() {
+                        let at = frags[frags.len() - 1 - *k] + 6;
+                        if bytes[at] == 0 {
+                            bytes[at] = 1;
+                            let mut f = fs.create_file(m, false).unwrap();
+                            f.write_all(&bytes).unwrap();
+                        }
                     }
                 }
                 options.create_if_missing = false;
